@@ -38,6 +38,7 @@ func report(prop, tier string, seed int, verif, repo string, cs *ContractSet, l 
 		}
 	}
 	total, discharged, covers, coversOK, knownCnt := 0, 0, 0, 0, 0
+	coversUndecided := 0
 	bySolver := map[string]int{}
 	solverSecs := 0.0
 	var samples []map[string]any
@@ -86,6 +87,9 @@ func report(prop, tier string, seed int, verif, repo string, cs *ContractSet, l 
 				covers++
 				if o.ok() {
 					coversOK++
+					if o.Result != "sat" {
+						coversUndecided++
+					}
 				} else {
 					vacuous = append(vacuous, fr.Short+"/"+o.Name+" ("+o.Result+")")
 				}
@@ -193,7 +197,8 @@ func report(prop, tier string, seed int, verif, repo string, cs *ContractSet, l 
 		"samples":                   samples,
 		"functions_under_contract":  funcs,
 		"vacuity_covers":            covers,
-		"vacuity_covers_sat":        coversOK,
+		"vacuity_covers_sat":        coversOK - coversUndecided,
+		"vacuity_covers_undecided":  coversUndecided,
 		"known_finding_obligations": knownCnt,
 		"discharged_by_solver":      bySolver,
 		"solver_time_s":             round3(solverSecs),
